@@ -52,6 +52,26 @@ def r17a(ctx, rep, cr):
                     for x in A.place_fields(pl):
                         if x.startswith(GS + '.'):
                             merge_reads.setdefault(x.split('.')[-1], set()).add(pl[0])
+        # … or in a helper that is handed each state (`rank(existing) > rank(incoming)`): what the helper reads of its parameter
+        # counts for the operand it is called with
+        for c in A.calls(h):
+            g = cr.fns.get(c.resolved)
+            if g is None or not c.resolved.startswith(G) or c.resolved == GS + '::supersedes' or not c.args:
+                continue
+            for k_, a in enumerate(c.args):
+                if a[0] == 'k' or not re.search(r'GossipNodeState$', h.locals[a[1][0]].replace('&', '').strip()):
+                    continue
+                for b in g.bbs:
+                    if b['cleanup']:
+                        continue
+                    pls = []
+                    for st in b['s']:
+                        pls += A.rvalue_places(st[1])
+                    for pl in pls:
+                        if pl[0] == k_ + 1:
+                            for x in A.place_fields(pl):
+                                if x.startswith(GS + '.'):
+                                    merge_reads.setdefault(x.split('.')[-1], set()).add(('arg', a[1][0]))
     for fld in VIEW_FIELDS:
         if fld in reads[1] and fld in reads[2]:
             rep.holds('R17a', f, fld, 'read on both operands')
